@@ -892,6 +892,7 @@ func run(c Sx) Result {
 		res.Obs = observe(t, o)
 	}
 	fails := oracle(t, o)
+	fails = append(fails, authWarmOracle(t, o)...)
 	if p, ok := parseSstoreStream(t); ok {
 		fails = append(fails, sstoreOracle(t, p)...)
 		res.Tags = append(res.Tags, "sstore-stream", fmt.Sprintf("sstore-orig%d", p.orig))
